@@ -21,7 +21,7 @@ Defects == {"nonstring_node", "cyclic_graph", "no_source", "no_sink", "negative_
             "nonconserving_flow", "constraint_absent_edge", "constraint_not_list_of_lists", "constraint_bad_edge_shape",
             "constraint_empty", "coverage_zero", "coverage_above_one", "coverage_negative", "k_zero", "k_negative",
             "k_not_int", "bad_weight_type", "bad_origin", "unknown_start", "unknown_end", "scaling_above_one",
-            "scaling_negative"}
+            "scaling_negative", "covlen_zero", "covlen_above_one", "covlen_without_length_attr", "covlen_with_coverage"}
 
 Applies(cls, d) ==
   CASE d = "cyclic_graph" -> cls \in DAGCls
@@ -31,11 +31,13 @@ Applies(cls, d) ==
     [] d \in {"k_zero", "k_negative", "k_not_int"} -> cls \in KCls
     [] d \in {"unknown_start", "unknown_end"} -> cls \in StartCls
     [] d \in {"scaling_above_one", "scaling_negative"} -> cls \in ErrCls
+    [] d \in {"covlen_zero", "covlen_above_one", "covlen_without_length_attr", "covlen_with_coverage"} -> cls \in DAGCls
     [] OTHER -> TRUE
 
 (* defects that cannot be combined in one input (they modify the same argument incompatibly) *)
 Conflict(a, b) ==
-  \/ {a, b} \subseteq {"coverage_zero", "coverage_above_one", "coverage_negative"}
+  \/ {a, b} \subseteq {"coverage_zero", "coverage_above_one", "coverage_negative", "covlen_zero", "covlen_above_one",
+                      "covlen_without_length_attr", "covlen_with_coverage"}
   \/ {a, b} \subseteq {"k_zero", "k_negative", "k_not_int"}
   \/ {a, b} \subseteq {"constraint_absent_edge", "constraint_not_list_of_lists", "constraint_bad_edge_shape", "constraint_empty"}
   \/ {a, b} \subseteq {"scaling_above_one", "scaling_negative"}
